@@ -120,6 +120,17 @@ CLAIMS = {
         note="PARTIAL: the lock-free insertion protocol (CAS retry) is explored, not proved; the skip list (concurrent_map/set) has no Coq model — structure and concurrency oracles only; unsafe_erase, merge, "
              "rehash/reserve and multimap ordering of equal keys are outside the model's theorems (multi containers are tied but only the unique container is proved).",
         ref="4/C12"),
+    "C15": dict(
+        technique="Coq proof: invariants by induction over arbitrary operation sequences on the reservable item_buffer model (queue FIFO/conservation, sequencer exact order, buffer conservation, "
+                  "reservation discipline); white-box differential tie; node-contract oracle; real-thread oracle runs for limiter/join/queue/sequencer graphs",
+        text="Proved for every sequence of try_put / try_get / try_reserve / try_release / try_consume: queue_node: delivered ++ buffered = accepted puts, in order; sequencer_node: the delivered items are "
+             "exactly 0,1,2,... in order and each buffered item sits in the slot of its number (stale and duplicate tags refused); buffer_node: delivered + buffered is a permutation of the accepted puts; "
+             "all three: the reservation flag is set iff the front slot is the single reserved slot. Tie: the real nodes are driven sequentially through their public interface and compared with the model "
+             "result by result and slot by slot (head, tail, capacity, slot states). Found and fixed: buffer_node::try_get handed out the item held by a pending reservation (6d233aa).",
+        note="PARTIAL: priority_queue_node, limiter_node, join_node (queueing / reserving / key_matching), overwrite/write_once/broadcast/split/indexer nodes and forwarding to successors have no Coq model; "
+             "priority_queue_node is checked against the node contract sequentially, queue/sequencer/limiter/join graphs with real threads (order, threshold, matching tuples, conservation). "
+             "Concurrency inside one node is serialised by its aggregator (not modelled).",
+        ref="4/C15"),
     "C20": dict(
         technique="Coq proof: exact characterisation of the reachable configurations of the suspend/resume handshake (inductive invariant, all interleavings); real suspend/resume runs with racing resumers under an exactly-once oracle",
         text="For every interleaving of the suspending thread's exchange(suspended)/self-resume with a resume() from anywhere (incl. the suspend callback itself): at most one resume task is pushed, "
